@@ -83,7 +83,22 @@ func jsonStr(s string) string {
 	e := json.NewEncoder(&b)
 	e.SetEscapeHTML(false)
 	_ = e.Encode(s)
-	return strings.TrimSuffix(b.String(), "\n")
+	out := strings.TrimSuffix(b.String(), "\n")
+	// DEL, the C1 controls (NEL among them), the byte order mark and the
+	// non-characters are written as escapes: the same JSON string, and the only
+	// way such a character survives a YAML reader
+	if strings.ContainsAny(out, "\u007f\u0080\u0081\u0082\u0083\u0084\u0085\u0086\u0087\u0088\u0089\u008a\u008b\u008c\u008d\u008e\u008f\u0090\u0091\u0092\u0093\u0094\u0095\u0096\u0097\u0098\u0099\u009a\u009b\u009c\u009d\u009e\u009f\ufeff\ufffe\uffff") {
+		var sb strings.Builder
+		for _, r := range out {
+			if r == 0x7f || r >= 0x80 && r <= 0x9f || r == 0xfeff || r == 0xfffe || r == 0xffff {
+				fmt.Fprintf(&sb, "\\u%04x", r)
+			} else {
+				sb.WriteRune(r)
+			}
+		}
+		out = sb.String()
+	}
+	return out
 }
 
 func jsonNum(f float64) string {
@@ -233,6 +248,10 @@ func (v *Val) writeYAML(b *strings.Builder, depth int, inline bool) {
 			b.WriteString("-.inf")
 		case math.IsNaN(v.N):
 			b.WriteString(".nan")
+		case math.Abs(v.N) >= 9.2e18 && v.N == math.Trunc(v.N):
+			// beyond int64 a bare integer is a uint64 (or nothing) to YAML
+			// readers; written with an exponent it is a float
+			b.WriteString(strconv.FormatFloat(v.N, 'e', -1, 64))
 		default:
 			b.WriteString(jsonNum(v.N))
 		}
